@@ -68,6 +68,7 @@ func runC02(c *Ctx) {
 	ruleLogNeverShrinks(c, "C02.29")
 	ruleReplayUnconditional(c, "C02.30")
 	ruleNoLoopVarCapture(c, "C02.31", "storage", "engine")
+	ruleLSNMonotone(c, "C02.32")
 	ruleErrorsNotDropped(c, "C02.16", "storage.(*BTree).insert", "storage.(*RelationService).Insert", "storage.(*RelationService).MarkDeleted", "storage.(*RelationService).FlushWALBatch")
 }
 
@@ -1275,7 +1276,20 @@ func c02RecoveryEnds(c *Ctx, rule string) {
 		if ri.guard != nil && enclosingLoop(f.Decl.Body, st) != nil {
 			gl, _ := g.Locate(ri.guard.Cond)
 			k2 := f.Name + "|counter-covers-skipped#" + itoa(i+1)
-			if g.Dominates(loc, gl) {
+			covers := g.Dominates(loc, gl)
+			if !covers {
+				// `if rec.LSN > counter { counter = rec.LSN }` ahead of the skip: the counter is the maximum seen so far
+				if ifs := ifAround(f.Decl.Body, st); ifs != nil && ifs.Else == nil && ifs.Init == nil && len(ifs.Body.List) == 1 && len(st.Lhs) == 1 && len(st.Rhs) == 1 {
+					if il, ok := g.Locate(ifs.Cond); ok && g.Dominates(il, gl) {
+						rel1 := Rel{exprKey(st.Rhs[0]), token.GTR, exprKey(st.Lhs[0])}
+						rel2 := Rel{exprKey(st.Rhs[0]), token.GEQ, exprKey(st.Lhs[0])}
+						if condImplies(ifs.Cond, true, rel1) || condImplies(ifs.Cond, true, rel2) {
+							covers = true
+						}
+					}
+				}
+			}
+			if covers {
 				c.OK(rule, k2, st.Pos(), 1, "the counter follows every record, including those the LSN guard skips")
 			} else {
 				c.Fail(rule, k2, st.Pos(), "the LSN counter is only moved for records that are re-applied: after a crash between the page writes and the header write it stays below LSNs already on disk, and the next statement's record is skipped by the following recovery")
@@ -1349,4 +1363,21 @@ func (g *Graph) blockAfter(rs *ast.RangeStmt) *cfg.Block {
 		}
 	}
 	return g.Entry()
+}
+
+
+// ifAround returns the if statement whose then-block directly contains st.
+func ifAround(root ast.Node, st ast.Stmt) *ast.IfStmt {
+	var found *ast.IfStmt
+	ast.Inspect(root, func(x ast.Node) bool {
+		if ifs, ok := x.(*ast.IfStmt); ok {
+			for _, b := range ifs.Body.List {
+				if b == st {
+					found = ifs
+				}
+			}
+		}
+		return found == nil
+	})
+	return found
 }
